@@ -180,7 +180,9 @@ def SOp.onMap : SOp → AMap → AMap
   | .put _ n e, m => m.put n e
   | .setEnd _ n x, m => match m.find n with | some e => m.put n { e with nUserEnd := x } | none => m
   | .setNewDef _ n b, m => match m.find n with | some e => m.put n { e with newDef := b } | none => m
-  | .modify _ n x tok, m => match m.find n with | some e => m.put n { e with content := tok, nUserEnd := x } | none => m
+  | .modify _ n x tok, m =>
+    -- read_raw(parser, false) starts with Set_new_def(false)
+    match m.find n with | some e => m.put n { e with content := tok, nUserEnd := x, newDef := false } | none => m
   | .copy _ i j, m => rxnCopy m i j
   | .copies _ n x, m => rxnCopies m n x
   | .copyEach _ n x, m => Store.copyEach m n x
@@ -552,7 +554,8 @@ def runAsCells (s : St) : St :=
       else
         let s := setAdvection s i
         reactCore s s.save (if (s.use .kinetics).inn then some i else none)) s
-    { s with cells := none }
+    -- `cells.defined` is reset only when the loop completes: a stopped RUN_CELLS is run again by the next simulation
+    if s.stopped.isSome then s else { s with cells := none }
 
 /-! ### do_mixes, copy_entities, delete_entities -/
 
